@@ -221,6 +221,12 @@ func Positive(x int) *DivError {
 	return nil
 }
 
+// Functions whose argument values can make them fail with a run-time error (index out of range, division
+// by zero, nil dereference) rather than with a panic of their own.
+func Index(list []int, i int) int { Rec.note("index", list, i); return list[i] }
+func Quot(a, b int) int           { Rec.note("quot", a, b); return a / b }
+func Deref(p *int) int            { Rec.note("deref", p); return *p }
+
 func mk(name string, f interface{}) Fn {
 	t := reflect.TypeOf(f)
 	fn := Fn{Name: name, F: f, Variadic: t.IsVariadic()}
@@ -249,6 +255,7 @@ var Catalogue = []Fn{
 	mk("ctxAny", CtxAny), mk("ctxVar", CtxVar), mk("ctxMap", CtxMap),
 	// the last result is a concrete error type (a typed nil pointer on success)
 	mk("div", Div), mk("positive", Positive),
+	mk("index", Index), mk("quot", Quot), mk("deref", Deref),
 	// names whose cased letters are not ASCII: lookup is case-insensitive for them too
 	mk("привет", Hello), mk("Ärger_ölçüm", Add),
 }
